@@ -116,6 +116,13 @@ def rand_port(rng):
                 attrs['default'] = ['val', val]
     if rng.random() < 0.2 and vt in (None, 'int', 'intstr'):
         attrs['validator'] = 'v_not1'
+    if rng.random() < 0.1 and (vt or 'validator' in attrs):
+        # the type / validator are set through the property setters after the port was declared (a sub class tightening an inherited
+        # port): the default in place need not conform any more, which must show as soon as it is used
+        attrs['late'] = True
+        bad = 1 if 'validator' in attrs and rng.random() < 0.5 else _bad_value(rng, vt)
+        if not isinstance(bad, dict) and rng.random() < 0.7:
+            attrs['default'] = ['val', bad]
     return ['port', attrs]
 
 
@@ -235,7 +242,14 @@ def _port_kwargs(attrs):
 
 def build(ns, children):
     for name, d in children.items():
-        if d[0] == 'port':
+        if d[0] == 'port' and d[1].get('late'):
+            kw = _port_kwargs({k: v for k, v in d[1].items() if k != 'late'})
+            port = InputPort(name, **{k: v for k, v in kw.items() if k not in ('valid_type', 'validator')})
+            for k in ('valid_type', 'validator'):
+                if k in kw:
+                    setattr(port, k, kw[k])
+            ns[name] = port
+        elif d[0] == 'port':
             ns[name] = InputPort(name, **_port_kwargs(d[1]))
         else:
             sub = PortNamespace(name, **_port_kwargs(d[1]))
